@@ -134,33 +134,57 @@ func matchPropFilter(filter PropFilter, comp *ical.Component) (bool, error) {
 func matchCompTimeRange(start, end time.Time, comp *ical.Component) (bool, error) {
 	// See https://datatracker.ietf.org/doc/html/rfc4791#section-9.9
 
+	// Dates and floating times are interpreted in the time range's location
+	loc := start.Location()
+	if start.IsZero() {
+		loc = end.Location()
+	}
+
 	// evaluate recurring components
-	rset, err := comp.RecurrenceSet(start.Location())
+	rset, err := comp.RecurrenceSet(loc)
 	if err != nil {
 		return false, err
-	}
-	if rset != nil {
-		// TODO we can only set inclusive to true or false, but really the
-		// start time is inclusive while the end time is not :/
-		return len(rset.Between(start, end, true)) > 0, nil
 	}
 
 	// TODO handle more than just events
 	if comp.Name != ical.CompEvent {
+		if rset != nil {
+			return len(rset.Between(start, end, true)) > 0, nil
+		}
 		return false, nil
 	}
 	event := ical.Event{comp}
 
-	eventStart, err := event.DateTimeStart(start.Location())
+	eventStart, err := event.DateTimeStart(loc)
 	if err != nil {
 		return false, err
 	}
-	eventEnd, err := event.DateTimeEnd(end.Location())
+	eventEnd, err := event.DateTimeEnd(loc)
 	if err != nil {
 		return false, err
+	}
+	dur := eventEnd.Sub(eventStart)
+
+	if rset == nil {
+		return timeRangeOverlaps(start, end, eventStart, dur), nil
 	}
 
-	return timeRangeOverlaps(start, end, eventStart, eventEnd.Sub(eventStart)), nil
+	// All instances last dur and come in increasing order: only the first
+	// instance ending after the range start can overlap the range. An
+	// instance starting exactly at start-dur ends at the range start, in
+	// which case the next one decides.
+	var lower time.Time
+	if !start.IsZero() {
+		lower = start.Add(-dur)
+	}
+	instance := rset.After(lower, true)
+	for i := 0; i < 2 && !instance.IsZero(); i++ {
+		if timeRangeOverlaps(start, end, instance, dur) {
+			return true, nil
+		}
+		instance = rset.After(instance, false)
+	}
+	return false, nil
 }
 
 // timeRangeOverlaps implements the VEVENT conditions of RFC 4791 section 9.9
